@@ -141,7 +141,12 @@ def one(ctx, dn, directed, idkind, delim, enc, target, big=False):
         if delim is not None:
             kw["delimiter"] = delim
         try:
-            tgt.write(lambda p: dn.write_snapshots(G, p, **kw))
+            # the target is passed positionally or by keyword (both are resolved by the same decorator)
+            if ctx.rng.random() < 0.3:
+                ctx.cell("path-by-keyword")
+                tgt.write(lambda p: dn.write_snapshots(G, path=p, **kw))
+            else:
+                tgt.write(lambda p: dn.write_snapshots(G, p, **kw))
         except Exception as ex:
             if raised_in_library(ex):
                 ctx.violation("write:raised", dict(cfg, exception=repr(ex)))
@@ -179,7 +184,7 @@ def one(ctx, dn, directed, idkind, delim, enc, target, big=False):
             rk["delimiter"] = delim
         arg = tgt.read_arg()
         try:
-            H = dn.read_snapshots(arg, **rk)
+            H = dn.read_snapshots(path=arg, **rk) if ctx.rng.random() < 0.3 else dn.read_snapshots(arg, **rk)
         except Exception as ex:
             if raised_in_library(ex):
                 ctx.violation("read:raised", dict(cfg, exception=repr(ex)))
